@@ -394,8 +394,23 @@ def pipeline(ctx):
     return p
 
 
+_deps_cache = {}
+
+
 def depends_on(f, expr, name, depth=3):
-    """expr mentions ``name`` directly or through singly-defined locals."""
+    """expr mentions ``name`` directly, through singly-defined locals, or
+    through a collection filled from it (loops with add/append, keyed
+    stores: common.Deps)."""
+    if _depends_on_names(f, expr, name, depth):
+        return True
+    key = id(f.node)
+    if key not in _deps_cache:
+        _deps_cache[key] = (f.node, Deps(f))
+    return _deps_cache[key][1].reaches(
+        expr, lambda x: isinstance(x, ast.Name) and x.id == name)
+
+
+def _depends_on_names(f, expr, name, depth=3):
     for x in ast.walk(expr):
         if isinstance(x, ast.Name):
             if x.id == name:
@@ -406,7 +421,7 @@ def depends_on(f, expr, name, depth=3):
                             isinstance(t, ast.Name) and t.id == x.id
                             for t in n.targets)]
                 if len(defs) == 1 and defs[0].value is not expr and \
-                        depends_on(f, defs[0].value, name, depth - 1):
+                        _depends_on_names(f, defs[0].value, name, depth - 1):
                     return True
     return False
 
